@@ -567,18 +567,42 @@ bool vm_ffi_call_cop(VmState *vm, const NvmModule *module, uint32_t import_idx,
                            result, heap, error_msg, error_msg_size);
     }
 
-    /* Build request payload: u32 import_idx + u16 argc + serialized args */
+    /* Build request payload: u32 import_idx + u16 argc + serialized args.
+     * The buffer is sized from the arguments: small requests use the stack
+     * buffer, larger ones (long strings, big arrays) a heap buffer. */
     uint8_t payload[8192];
+    uint64_t need = 6;
+    for (int i = 0; i < arg_count && i < 16; i++) {
+        need += cop_value_size(&args[i]);
+    }
+    if (need > COP_MAX_PAYLOAD) {
+        snprintf(error_msg, error_msg_size,
+                 "COP: request too large (%llu bytes)", (unsigned long long)need);
+        return false;
+    }
+    uint8_t *req = payload;
+    uint32_t req_size = sizeof(payload);
+    if (need > sizeof(payload)) {
+        req = malloc((size_t)need);
+        if (!req) {
+            snprintf(error_msg, error_msg_size, "COP: OOM for request (%llu bytes)",
+                     (unsigned long long)need);
+            return false;
+        }
+        req_size = (uint32_t)need;
+    }
+
     uint32_t pos = 0;
-    memcpy(payload + pos, &import_idx, 4);
+    memcpy(req + pos, &import_idx, 4);
     pos += 4;
     uint16_t argc = (uint16_t)arg_count;
-    memcpy(payload + pos, &argc, 2);
+    memcpy(req + pos, &argc, 2);
     pos += 2;
 
     for (int i = 0; i < arg_count && i < 16; i++) {
-        uint32_t n = cop_serialize_value(&args[i], payload + pos, sizeof(payload) - pos);
+        uint32_t n = cop_serialize_value(&args[i], req + pos, req_size - pos);
         if (n == 0) {
+            if (req != payload) free(req);
             snprintf(error_msg, error_msg_size, "COP: failed to serialize arg %d", i);
             return false;
         }
@@ -586,7 +610,9 @@ bool vm_ffi_call_cop(VmState *vm, const NvmModule *module, uint32_t import_idx,
     }
 
     /* Send request */
-    if (!cop_send(vm->cop_in_fd, COP_MSG_FFI_REQ, payload, pos)) {
+    bool sent = cop_send(vm->cop_in_fd, COP_MSG_FFI_REQ, req, pos);
+    if (req != payload) free(req);
+    if (!sent) {
         /* Pipe broken — cop crashed during our call */
         vm_ffi_cop_stop(vm);
         snprintf(error_msg, error_msg_size,
